@@ -30,6 +30,7 @@ class RealAlg:
         self.uf2 = {n: z3.Function(n, R, R, R) for n in ('powf',)}
         self.powi = z3.Function('powi', R, z3.IntSort(), R)
         self.used = []          # (name, args) of every UF application, for axiom instantiation
+        self.lemmas = []
         self.INF = z3.Real('INF__')        # symbolic "infinity" used only where a query opts in
     def const(self, f):
         if math.isinf(f): return Fl(self.INF if f > 0 else -self.INF)
@@ -73,7 +74,12 @@ class RealAlg:
     def maxf(self, a, b): return Fl(z3.If(a.v >= b.v, a.v, b.v))
     def absf(self, a): return Fl(z3.If(a.v >= 0, a.v, -a.v))
     def call1(self, n, a):
-        t = self.uf[n](a.v); self.used.append((n, (a.v,), t)); return Fl(t)
+        t = self.uf[n](a.v); self.used.append((n, (a.v,), t))
+        # rounding functions: plain mathematical facts, emitted as lemma instances (used by every feasibility query)
+        if n == 'round': self.lemmas += [t >= a.v - z3.RealVal('1/2'), t <= a.v + z3.RealVal('1/2'), z3.IsInt(t)]
+        elif n == 'floor': self.lemmas += [t <= a.v, t > a.v - 1, z3.IsInt(t)]
+        elif n == 'ceil': self.lemmas += [t >= a.v, t < a.v + 1, z3.IsInt(t)]
+        return Fl(t)
     def call2(self, n, a, b):
         t = self.uf2[n](a.v, b.v); self.used.append((n, (a.v, b.v), t)); return Fl(t)
     def ite(self, c, a, b): return Fl(z3.If(c, a.v, b.v))
